@@ -85,7 +85,13 @@ Definition t_accept_sink (nw : Z) (it : item) (x : dev) : dev :=
   dev_add_value nw 1 (item_value it) (y <| d_received ::= Z.add (item_count it) |> <| d_value_received ::= Z.add (item_value it) |>)
     <| d_collected ::= fun l => if d_collect x then l ++ [it] else l |>.
 Definition t_buf_store (nw : Z) (it : item) (x : dev) : dev := x <| d_buf ::= fun b => b ++ [(nw, it)] |> <| d_part := None |>.
-Definition t_buf_pop (it : item) (x : dev) : dev := x <| d_level ::= fun l => l - item_count it |> <| d_buf ::= @tl _ |>.
+(** `self._level -= part_count; self._buffer.pop(0)`: the head cannot change while it is being offered
+    (hand-overs only append), so its count is re-read here *)
+Definition t_buf_pop (x : dev) : dev :=
+  match d_buf x with
+  | (_, it) :: rest => x <| d_level ::= fun l => l - item_count it |> <| d_buf := rest |>
+  | [] => x
+  end.
 Definition t_supplied (nw v : Z) (x : dev) : dev :=
   dev_add_value nw 2 (- v) (x <| d_produced ::= Z.add 1 |>) <| d_cost_produced ::= Z.add v |>.
 Definition t_shutdown (nw : Z) (x : dev) : dev :=
@@ -197,11 +203,13 @@ Definition create_wo (nw : Z) (mid t g : Z) (w : fw) : fw :=
 (** * user callbacks *)
 Definition E_NOTIMPL := 7.
 
-Definition part_add_value (v : Z) (it : item) : option item :=
+(** Part.add_value on a single part (Batch.add_value raises NotImplementedError, see [run_cbop]) *)
+Definition item_add_value (v : Z) (it : item) : item :=
   match it with
-  | ISingle p => Some (ISingle (if v =? 0 then p else p <| p_value ::= Z.add v |>))
-  | IBatch _ _ => None            (* Batch.add_value raises NotImplementedError *)
+  | ISingle p => ISingle (if v =? 0 then p else p <| p_value ::= Z.add v |>)
+  | IBatch b ps => IBatch b ps
   end.
+Definition is_batch (it : item) : bool := match it with IBatch _ _ => true | ISingle _ => false end.
 
 Definition part_set_quality (q : Z) (it : item) : item :=
   match it with
@@ -212,21 +220,16 @@ Definition part_set_quality (q : Z) (it : item) : item :=
 (** [slot]: true = the callback's part argument is the device's _part, false = its _output *)
 Definition run_cbop (nw : Z) (d : Z) (slot : bool) (is_failure : bool) (lost : Z) (w : fw) (o : cbop) : fw :=
   if negb (okf w) then w else
-  let upd_item (f : item -> item) :=
-    updd w d (t_map_slot slot f) in
   let cur := if slot then d_part (getd w d) else d_out (getd w d) in
   match o with
   | CbSetCycle z => updd w d (t_set_cycle z)
   | CbOffsetNext z => updd w d (t_add_offset z)
   | CbPartAddValue v =>
     match cur with
-    | Some it => match part_add_value v it with
-                 | Some it' => upd_item (fun _ => it')
-                 | None => failf w E_NOTIMPL
-                 end
+    | Some it => if is_batch it then failf w E_NOTIMPL else updd w d (t_map_slot slot (item_add_value v))
     | None => w
     end
-  | CbPartSetQuality q => upd_item (part_set_quality q)
+  | CbPartSetQuality q => updd w d (t_map_slot slot (part_set_quality q))
   | CbCreateWO m t g => create_wo nw m t g w
   | CbCreateWOIfFailure m g => if is_failure then create_wo nw m d g w else w
   | CbLog k =>
@@ -265,7 +268,7 @@ Definition finish_cycle (fuel : nat) (nw : Z) (w : fw) (d : Z) : fw :=
                         updd w' d (t_generated it)
               end in
     sched_pass nw 0 w1 d
-  | _ =>
+  | KHandler | KProcessor | KSink =>
     if negb (operational x) then failf w E_ASSERT
     else match d_part x, d_out x with
          | None, _ => failf w E_ASSERT
@@ -290,6 +293,7 @@ Definition finish_cycle (fuel : nat) (nw : Z) (w : fw) (d : Z) : fw :=
            | _ => w1
            end
          end
+  | _ => failf w E_ASSERT      (* never scheduled for the other kinds *)
   end.
 
 (** _schedule_finish_cycle *)
@@ -483,7 +487,7 @@ Fixpoint buffer_loop (n : nat) (fuel : nat) (nw : Z) (w : fw) (d : Z) : fw :=
       else
         let '(w1, ok) := try_downstream fuel nw w d it in
         if ok then
-          let w2 := updd w1 d (t_buf_pop it) in
+          let w2 := updd w1 d t_buf_pop in
           buffer_loop n' fuel nw (data w2 L_LEVEL d [nw; d_level (getd w2 d)]) d
         else w1
     end
@@ -535,8 +539,11 @@ Definition release_if_idle (nw : Z) (w : fw) (d : Z) : fw :=
   let x := getd w d in
   if negb (operational x) || (match d_part x with None => true | Some _ => false end) then release_reserved nw w d else w.
 
+Definition is_processor (x : dev) : bool := match d_kind x with KProcessor => true | _ => false end.
+
 Definition shutdown (nw : Z) (is_failure : bool) (lost : Z) (w : fw) (d : Z) : fw :=
   let x := getd w d in
+  if negb (is_processor x) then w else
   if d_shut x then
     (* failed while already shut down: cancel the interrupted cycle, report the lost part *)
     if is_failure then run_cbops nw d true is_failure lost (d_on_shutdown x) (emitf w (FCancel d)) else w
@@ -546,6 +553,7 @@ Definition shutdown (nw : Z) (is_failure : bool) (lost : Z) (w : fw) (d : Z) : f
 
 Definition fail (nw : Z) (w : fw) (d : Z) : fw :=
   let x := getd w d in
+  if negb (is_processor x) then w else
   let lost := match d_part x with Some it => item_id it | None => -1 end in
   let w1 := updd w d t_clear_part in
   let w2 := release_reserved nw w1 d in
@@ -554,6 +562,7 @@ Definition fail (nw : Z) (w : fw) (d : Z) : fw :=
 
 Definition restore (fuel : nat) (nw : Z) (w : fw) (d : Z) : fw :=
   let x := getd w d in
+  if negb (is_processor x) then w else
   if negb (d_shut x) then w
   else
     let w1 := emitf (updd w d (t_restore nw)) (FUnpause d) in
